@@ -1,0 +1,10 @@
+//go:build verif
+
+// Machine-checked contracts for package neuronjson (comment-only; read by /verif/cmd/govc).
+
+package neuronjson
+
+//@ func Data.IsMutationRequest
+//@   prop C02
+//@   requires d != nil && d.Data != nil
+//@   ensures result == ((tolower(action) == "post" || tolower(action) == "put" || tolower(action) == "delete") && !(endpoint == "query" && tolower(action) == "post"))
